@@ -143,7 +143,7 @@ def main():
             # function count honest: they are counted as not discharged above.
 
         # ---- Kani units ----
-        kunits = [k for k in cfg.get("kani", []) if tier == "thorough" or not k.get("thorough_only")]
+        kunits = list(cfg.get("kani", []))
         if kunits and not undecided_blocks(undecided):
             kr = kani_unit.run_units(kunits, repo, tier, prop)
             backends.add("kani 0.68 / cbmc 6.11")
@@ -243,4 +243,13 @@ def undecided_blocks(undecided):
 
 
 if __name__ == "__main__":
-    sys.exit(main())
+    try:
+        rc = main()
+    except SystemExit:
+        raise
+    except BaseException as e:  # a crash of the machinery is never an alarm
+        import traceback
+        traceback.print_exc()
+        print("UNDECIDED: internal error in the checking machinery: %r" % (e,))
+        rc = 2
+    sys.exit(rc)
